@@ -187,6 +187,8 @@ func c01Run(run *ev.Run) {
 		depth = 6
 	}
 	var total seqx.Stats
+	defer debugLogTail(run, 4, func(s world.Spec) seqx.Model { return c01Opts("quick", s).model(c01Monitor(run, s)) },
+		world.Spec{Store: "memory", Forward: true, Logout: true})
 	// overlapping checks of one expired session (small, first): the provider rotates the refresh token, so it honours
 	// one refresh and refuses the other; each OK verdict must be justified for the check that produced it
 	for _, sc := range c01ConcScenarios(run.Tier) {
